@@ -1,8 +1,8 @@
-------------------------------- MODULE GenLin -------------------------------
-EXTENDS Lin, Json, IOUtils
+----------------------------- MODULE GenLinPool -----------------------------
+EXTENDS LinPool, Json, IOUtils
 VARIABLE c
 Cases == IF "TIER" \in DOMAIN IOEnv /\ IOEnv.TIER = "thorough" THEN CasesThorough(0) ELSE CasesQuick(0)
 Init0 == c \in Cases
-Next == UNCHANGED c
+Next0 == UNCHANGED c
 Emit == PrintT("CASE " \o ToJson(c))
 =============================================================================
